@@ -17,7 +17,7 @@ from automata.fa.dfa import DFA
 from automata.fa.nfa import NFA
 
 from harness import gen
-from harness.common import (Ctx, Names, Toks, call, enc_dfa, enc_nfa, enc_word, exc_name, sym_names,
+from harness.common import (guarded, Ctx, Names, Toks, call, enc_dfa, enc_nfa, enc_word, exc_name, sym_names,
                             toks)
 
 LEVEL = "proof"
@@ -96,6 +96,7 @@ def parse_model(line: str, is_nfa: bool):
                 isin_nonstr=isin2, valid=valid)
 
 
+@guarded
 def check_one(ctx: Ctx, m, w: str, is_nfa: bool, origin: str):
     drv = ctx.driver("drv_fa_core")
     if is_nfa:
